@@ -135,7 +135,9 @@ impl Parser for MarkdownParser {
                     for (index, line) in &code_lines {
                         line_parser.add_testcase_body(line, *index)?;
                     }
-                    line_parser.end_testcase(code_lines[code_lines.len() - 1].0)?;
+                    if let Some((last_index, _)) = code_lines.last() {
+                        line_parser.end_testcase(*last_index)?;
+                    }
                     title_paragraph.clear();
                 }
             }
